@@ -1783,7 +1783,16 @@ def gen_argmut():
     return '\n'.join(out) + '\n'
 
 
-FILES = {'ArgMut.v': gen_argmut}
+def gen_argmut_closed():
+    try:
+        return gen_argmut()
+    except TranslateError:
+        raise
+    except Exception as e:           # any internal failure of the analysis fails closed (and only for the checks that need ArgMut.v)
+        raise TranslateError('argmut analysis failed: %s: %s' % (type(e).__name__, e))
+
+
+FILES = {'ArgMut.v': gen_argmut_closed}
 
 if __name__ == '__main__':
     import sys
